@@ -310,7 +310,9 @@ def fractions_stream(rng, thorough, streams, viol, samples):
             # scaling by a power of two is exact
             # (only while every scaled read-out stays a normal double: in the subnormal range a power of two no longer scales exactly)
             sc = float.fromhex(c["scale"])
-            in_range = all(x == 0 or (abs(x) >= 2.0 ** -1000 and abs(x * sc) >= 2.0 ** -1000) for x in ro_v)
+            nums = [float.fromhex(r["numbers"][n]) for n in keys]
+            in_range = all(x == 0 or (abs(x) >= 2.0 ** -1000 and abs(x * sc) >= 2.0 ** -1000) for x in ro_v) and \
+                all(x == 0 or (abs(x) >= 2.0 ** -900 and abs(x * sc) >= 2.0 ** -900) for x in nums)   # (a read-out of 0.0 may be an underflowed amount)
             if in_range and isinstance(r["fr_scaled"][kind], dict) and r["fr_scaled"][kind] != fr[kind]:
                 sv = [float.fromhex(r["fr_scaled"][kind][n]) for n in keys]
                 if any(abs(a - b) > 8 * 2 ** -52 * max(abs(b), 1e-300) for a, b in zip(sv, vals)):
